@@ -98,7 +98,9 @@ def _solve_normal(Q, P):
 # generators
 # ----------------------------------------------------------------------------------------
 def _crystals():
-    """name -> (unit cell builder(a), [(cutoff/a, coordination)], default supercell)"""
+    """name -> (unit cell builder(a), [(cutoff/a, coordination, smallest supercell)], supercell of the dyadic regime).
+    The smallest supercell keeps every periodic width above twice the radius of the selected shell (so that no atom
+    occurs twice in a neighbour list and the nearest image of a neighbour is unique by a wide margin)."""
     import atomman as am
 
     def mk(box, frac, atype=1):
@@ -107,20 +109,21 @@ def _crystals():
     bcc = [[0, 0, 0], [.5, .5, .5]]
     hcp = [[1 / 3, 2 / 3, .25], [2 / 3, 1 / 3, .75]]
     return {
-        'fcc': (lambda a: mk(am.Box.cubic(a), fcc), [(0.85, 12), (1.1, 18)], (3, 3, 3)),
-        'bcc': (lambda a: mk(am.Box.cubic(a), bcc), [(0.93, 8), (1.2, 14)], (4, 4, 4)),
-        'L12': (lambda a: mk(am.Box.cubic(a), fcc, [1, 2, 2, 2]), [(0.85, 12)], (3, 3, 3)),
-        'B2': (lambda a: mk(am.Box.cubic(a), bcc, [1, 2]), [(0.93, 8), (1.2, 14)], (4, 4, 3)),
-        'hcp': (lambda a: mk(am.Box.hexagonal(a, a * math.sqrt(8 / 3)), hcp), [(1.2, 12)], (4, 4, 3)),
-        'hcp2': (lambda a: mk(am.Box.hexagonal(a, 1.58 * a), hcp, [1, 2]), [(1.15, 12)], (4, 4, 3)),
+        'fcc': (lambda a: mk(am.Box.cubic(a), fcc), [(0.85, 12, (2, 2, 2)), (1.1, 18, (3, 3, 3))], (3, 3, 3)),
+        'bcc': (lambda a: mk(am.Box.cubic(a), bcc), [(0.93, 8, (2, 2, 2)), (1.2, 14, (3, 3, 3))], (4, 4, 4)),
+        'L12': (lambda a: mk(am.Box.cubic(a), fcc, [1, 2, 2, 2]), [(0.85, 12, (2, 2, 2))], (3, 3, 3)),
+        'B2': (lambda a: mk(am.Box.cubic(a), bcc, [1, 2]), [(0.93, 8, (2, 2, 2)), (1.2, 14, (3, 3, 3))], (4, 4, 3)),
+        'hcp': (lambda a: mk(am.Box.hexagonal(a, a * math.sqrt(8 / 3)), hcp), [(1.2, 12, (3, 3, 2))], (4, 4, 3)),
+        'hcp2': (lambda a: mk(am.Box.hexagonal(a, 1.58 * a), hcp, [1, 2]), [(1.15, 12, (3, 3, 2))], (4, 4, 3)),
         # fcc described in its body-centred tetragonal cell: cubic axes rotated by 45 degrees about z
-        'fcc-bct': (lambda a: mk(am.Box.tetragonal(a / math.sqrt(2), a), bcc), [(0.85, 12)], (4, 4, 3)),
+        'fcc-bct': (lambda a: mk(am.Box.tetragonal(a / math.sqrt(2), a), bcc), [(0.85, 12, (3, 3, 2))], (4, 4, 3)),
         'fcc-111': (lambda a: mk(am.Box.cubic(a), fcc).rotate([[1, 1, -2], [1, 1, 1], [-1, 1, 0]]),
-                    [(0.85, 12)], (2, 2, 3)),
+                    [(0.85, 12, (1, 1, 2))], (2, 2, 3)),
     }
 
 
 def _reference(rng, name=None, dyadic=False):
+    """a reference crystal and ONE neighbour shell: (system, name, a, [(cutoff/a, coordination)], supercell)."""
     cr = _crystals()
     if name is None:
         name = rng.choice(sorted(cr))
@@ -128,13 +131,15 @@ def _reference(rng, name=None, dyadic=False):
     a = rng.choice([4.0, 2.0]) if dyadic else rng.choice([4.05, 3.3, 2.87, 4.0, 3.52])
     if dyadic:
         # power-of-two box lengths; every periodic length > 2 * cutoff
-        size = (4, 4, 4) if name in ('bcc', 'B2') else rng.choice([(4, 4, 2), (2, 4, 4), (4, 2, 4)])
-        if name in ('bcc', 'B2'):
-            shells = shells[:1] + [s for s in shells[1:] if s[0] * 2 < 2]
-        else:
-            shells = shells[:1]
+        size = rng.choice([(4, 4, 2), (2, 4, 4), (4, 2, 4), (2, 2, 4), (2, 4, 2), (4, 2, 2), (2, 2, 2)])
+        shells = [shells[0][:2]]
     else:
-        size = tuple(max(2, s + rng.choice([0, 0, 1])) for s in size)
+        cutf, coordn, msize = rng.choice(shells)
+        size = list(msize)
+        for _ in range(rng.choice([0, 1, 1, 2])):
+            size[rng.randrange(3)] += 1
+        size = tuple(size)
+        shells = [(cutf, coordn)]
     s0 = build(a).supersize(*size)
     return s0, name, a, shells, size
 
@@ -373,13 +378,20 @@ def _cmp(ctx, key, what, impl, out, exact, info, atol=1e-9):
     return True
 
 
-def _corr_slip(ctx, caseseed, it):
-    np = _np()
-    import atomman as am
+def _corr_slip(ctx, caseseed, it, reps=3):
+    """one reference crystal, `reps` different rigid slips of it (plane, pbc, vectors, storage of system_1)."""
     rng = random.Random(caseseed)
     dyadic = it % 2 == 0
     name = rng.choice(['fcc', 'bcc', 'L12', 'B2']) if dyadic else None
-    s0, name, a, shells, size = _reference(rng, name, dyadic)
+    ref = _reference(rng, name, dyadic)
+    for rep in range(reps):
+        _corr_slip_one(ctx, rng, ref, caseseed, it, it * reps + rep, dyadic)
+
+
+def _corr_slip_one(ctx, rng, ref, caseseed, it0, it, dyadic):
+    np = _np()
+    import atomman as am
+    s0, name, a, shells, size = ref
     sc = _slip_case(rng, s0, a, dyadic, shells)
     if sc is None:
         return
@@ -389,7 +401,7 @@ def _corr_slip(ctx, caseseed, it):
         s1 = _system(s0, _wrapshift(rng, s1, np), pbc=sc['pbc'])
     cut, nl0 = sc['cutoff'], sc['nl0']
     n = s0.natoms
-    info = {'op': 'corr-slip', 'caseseed': caseseed, 'it': it, 'crystal': name, 'a': a, 'size': list(size),
+    info = {'op': 'corr-slip', 'caseseed': caseseed, 'it': it0, 'variant': it, 'crystal': name, 'a': a, 'size': list(size),
             'axis': sc['axis'], 'mid': sc['mid'], 'uA': sc['uA'].tolist(), 'uB': sc['uB'].tolist(),
             'pbc': list(sc['pbc']), 'cutoff': cut, 'dyadic': dyadic}
     canon = (name, a, size, sc['axis'], sc['mid'], tuple(sc['uA']), tuple(sc['uB']), sc['pbc'], cut, it % 4 >= 2)
@@ -490,17 +502,26 @@ def _corr_disreg(ctx, s0, s1, m, nn, planepos, exact, info, canon):
         ctx.disagree('disregistry', f'disregistry: implementation differs from the model by {float(d):.3e}', info)
 
 
-def _corr_strain(ctx, caseseed, it):
+def _corr_strain(ctx, caseseed, it, reps=4):
+    """one reference crystal (neighbour list built once), `reps` different deformations of it."""
+    rng = random.Random(caseseed)
+    ref = _reference(rng, None, False)
+    s0, name, a, shells, size = ref
+    nl0 = s0.neighborlist(cutoff=shells[0][0] * a)
+    for rep in range(reps):
+        _corr_strain_one(ctx, rng, ref, nl0, caseseed, it, it * reps + rep)
+
+
+def _corr_strain_one(ctx, rng, ref, nl0, caseseed, it0, it):
     np = _np()
     import atomman as am
-    rng = random.Random(caseseed)
-    s0, name, a, shells, size = _reference(rng, None, False)
-    kind = ['general', 'field', 'rotation', 'field2', 'strain', 'general'][it % 6]
+    s0, name, a, shells, size = ref
+    kind = ['general', 'field', 'rotation', 'field2', 'strain', 'general', 'rotation', 'strain', 'field'][it % 9]
     n = s0.natoms
-    cutf, coordn = rng.choice(shells)
+    cutf, coordn = shells[0]
     cut = cutf * a
-    info = {'op': 'corr-strain', 'caseseed': caseseed, 'it': it, 'crystal': name, 'a': a, 'size': list(size),
-            'kind': kind, 'cutoff': cut}
+    info = {'op': 'corr-strain', 'caseseed': caseseed, 'it': it0, 'variant': it, 'crystal': name, 'a': a,
+            'size': list(size), 'kind': kind, 'cutoff': cut}
     if kind.startswith('field'):
         # smooth periodic displacement field u = A sin(2 pi (k.s + phase)): G varies, Nye tensor non-zero
         sfrac = s0.box.position_cartesian_to_relative(s0.atoms.pos)
@@ -518,7 +539,6 @@ def _corr_strain(ctx, caseseed, it):
         s1 = _deform(s0, F)
         info.update(F=F)
     canon = (name, a, size, kind, cut, repr(info.get('F')), repr(info.get('amp')), repr(info.get('k')))
-    nl0 = s0.neighborlist(cutoff=cut)
     if it % 2 == 0:
         nl1 = s1.neighborlist(cutoff=cut * (1.04 if F is not None else 1.0))
         if F is not None and it % 4 == 2:
@@ -657,11 +677,11 @@ def _corr_match(ctx, caseseed, N):
 
 def correspond(ctx):
     rng = ctx.rng
-    for it in range(ctx.n(6, 48)):
+    for it in range(ctx.n(10, 60)):
         _corr_slip(ctx, rng.getrandbits(48), it)
-    for it in range(ctx.n(6, 36)):
+    for it in range(ctx.n(10, 50)):
         _corr_strain(ctx, rng.getrandbits(48), it)
-    _corr_match(ctx, rng.getrandbits(48), ctx.n(80, 1500))
+    _corr_match(ctx, rng.getrandbits(48), ctx.n(250, 2500))
 
 
 # ----------------------------------------------------------------------------------------
@@ -696,15 +716,21 @@ def _same_profile(c1, d1, c2, d2, tol, np):
     return True
 
 
-def _search_slip(ctx, caseseed, it):
+def _search_slip(ctx, caseseed, it, reps=3):
     """rigid slip of a half crystal: displacement, slip vector, disregistry, differential displacement,
     invariance under joint translation and consistent renumbering."""
-    np = _np()
-    import atomman as am
     rng = random.Random(caseseed)
     dyadic = it % 3 == 0
     name = rng.choice(['fcc', 'bcc', 'L12', 'B2']) if dyadic else None
-    s0, name, a, shells, size = _reference(rng, name, dyadic)
+    ref = _reference(rng, name, dyadic)
+    for rep in range(reps):
+        _search_slip_one(ctx, rng, ref, caseseed, it, it * reps + rep, dyadic)
+
+
+def _search_slip_one(ctx, rng, ref, caseseed, it0, it, dyadic):
+    np = _np()
+    import atomman as am
+    s0, name, a, shells, size = ref
     sc = _slip_case(rng, s0, a, dyadic, shells)
     if sc is None:
         return
@@ -717,7 +743,7 @@ def _search_slip(ctx, caseseed, it):
         s1 = _system(s0, _wrapshift(rng, s1, np), pbc=sc['pbc'])
     L = max(1.0, float(np.abs(s0.box.vects).max()))
     tol = 0.0 if dyadic else 1e-9 * L
-    base = {'op': 'search-slip', 'caseseed': caseseed, 'it': it, 'crystal': name, 'a': a, 'size': list(size),
+    base = {'op': 'search-slip', 'caseseed': caseseed, 'it': it0, 'variant': it, 'crystal': name, 'a': a, 'size': list(size),
             'pbc': list(sc['pbc']), 'normal_axis': sc['axis'], 'plane': sc['mid'], 'u_above': sc['uA'].tolist(),
             'u_below': sc['uB'].tolist(), 'cutoff': cut, 'wrapped': wrapped}
     canon = (name, a, size, sc['axis'], sc['mid'], tuple(sc['uA']), tuple(sc['uB']), sc['pbc'], cut, wrapped)
@@ -756,7 +782,7 @@ def _search_slip(ctx, caseseed, it):
         if k is not None:
             fail('ddvectors', f'DifferentialDisplacement({how}, reference=0).ddvectors[{k}] = {dd[k].tolist()}, '
                  f'difference of the imposed displacements {exp_dd[k].tolist()}', pair=k)
-    if it % 4 == 0:
+    if it % 6 == 0:
         _search_ddplot(ctx, s0, s1, nl0, exp_dd, tol, base, np, am)
     # disregistry -------------------------------------------------------------------------------
     ax = sc['axis']
@@ -884,16 +910,24 @@ def _search_ddplot(ctx, s0, s1, nl0, exp_dd, tol, base, np, am):
                             f'imposed displacements {exp_dd[k].tolist()}', dict(base, call=str(kw), pair=k))
 
 
-def _search_homog(ctx, caseseed, it):
+def _search_homog(ctx, caseseed, it, reps=4):
     """homogeneous deformation gradient F: G = F^-T at every atom, strain / rotation / invariants from it, Nye = 0,
     displacement = (F - I) x; invariance under translation and renumbering."""
+    rng = random.Random(caseseed)
+    ref = _reference(rng, None, False)
+    s0, name, a, shells, size = ref
+    nl0 = s0.neighborlist(cutoff=shells[0][0] * a)
+    for rep in range(reps):
+        _search_homog_one(ctx, rng, ref, nl0, caseseed, it, it * reps + rep)
+
+
+def _search_homog_one(ctx, rng, ref, nl0, caseseed, it0, it):
     np = _np()
     import atomman as am
-    rng = random.Random(caseseed)
-    s0, name, a, shells, size = _reference(rng, None, False)
+    s0, name, a, shells, size = ref
     kind = ['general', 'rotation', 'strain'][it % 3]
     n = s0.natoms
-    cut = rng.choice(shells)[0] * a
+    cut = shells[0][0] * a
     F = _rand_F(rng, kind)
     s1 = _deform(s0, F)
     wrapped = it % 4 == 1
@@ -901,7 +935,7 @@ def _search_homog(ctx, caseseed, it):
     if wrapped:
         # same configuration, atoms moved by box vectors (the list is built before: nlist needs atoms in the box)
         s1 = _system(s1, _wrapshift(rng, s1, np))
-    base = {'op': 'search-homog', 'caseseed': caseseed, 'it': it, 'crystal': name, 'a': a, 'size': list(size),
+    base = {'op': 'search-homog', 'caseseed': caseseed, 'it': it0, 'variant': it, 'crystal': name, 'a': a, 'size': list(size),
             'F': F, 'kind': kind, 'cutoff': cut, 'wrapped': wrapped}
     canon = (name, a, size, repr(F), cut, wrapped)
     ctx.stats.case('oracle:homog:' + kind, canon, sample=base)
@@ -928,7 +962,6 @@ def _search_homog(ctx, caseseed, it):
     k = _bad(d, exp_disp, 1e-9 * float(np.abs(s0.box.vects).max()))
     if k is not None:
         fail('displacement', f'displacement of atom {k} is {d[k].tolist()}, imposed (F-I)x = {exp_disp[k].tolist()}', k)
-    nl0 = s0.neighborlist(cutoff=cut)
     variants = [('neighbors=', lambda: am.defect.Strain(s1, neighbors=nl1, basesystem=s0, baseneighbors=nl0))]
     if it % 2 == 0:
         variants.append(('cutoff=', lambda: am.defect.Strain(s1, cutoff=cut, basesystem=s0)))
@@ -1008,9 +1041,9 @@ def _search_homog(ctx, caseseed, it):
 def search(ctx, broken):
     rng = random.Random(ctx.seed * 7919 + 17)
     mult = 2 if broken else 1
-    for it in range(ctx.n(8, 80) * mult):
+    for it in range(ctx.n(8, 60) * mult):
         _search_slip(ctx, rng.getrandbits(48), it)
-    for it in range(ctx.n(9, 60) * mult):
+    for it in range(ctx.n(8, 50) * mult):
         _search_homog(ctx, rng.getrandbits(48), it)
 
 
